@@ -32,8 +32,8 @@ from praatio.utilities import errors as perrors
 RULE = ("findNearestZeroCrossing: recordings of 0..~400 samples (1500 at 44100 Hz; random, all-positive, all-negative, all-zero, "
         "sparse-zero, single-crossing, sine, two-level square; widths 1/2/4; rates 8, 16, 64, 1024, 8192 (model + oracle) and 10, 100, "
         "44100 (oracle only)) x targets on every kind of position (sample positions 0..n, half / quarter / eighth samples, decimals, "
-        "negative, beyond the end, 40..2500 steps away on either side; two calls per run 1e17 / -1e17 away and two more in the "
-        "corpus, expected not to return: known finding C18-A16) x steps (whole 2..40 samples, fractional 2.0625..7.5 samples, the "
+        "negative, beyond the end, 40..2500 steps away on either side, and very far: 1e6, 1e9, 2^40, 1e17 on either side - regression "
+        "of the repaired A16: must come back within the time limit) x steps (whole 2..40 samples, fractional 2.0625..7.5 samples, the "
         "default 0.002 s; malformed: 1, 1.5 and 1.9375 samples, 0, negative).  unit comparisons of _getNearestZero / "
         "_getZeroThresholdCrossing / _findNextZeroCrossing on random windows in both directions, getInterval, chooseClosestTime, sign.  "
         "tgBoundariesToZeroCrossings: 1-3 tier textgrids (interval + point tiers, boundaries on and off sample positions) on such "
@@ -48,7 +48,7 @@ TRUSTED = ["oracle: the property text evaluated on plain Python lists of samples
            "(step-wise comparison): the search itself is compared separately (op 'find')"]
 ASSUMPTIONS = ["mono recordings made of whole samples, widths 1, 2, 4",
                "model correspondence of the search is claimed where binary64 arithmetic on the times is exact: rate a power of two, "
-               "target and step dyadic with few bits, at most 3000 loop rounds; 10/100/44100 Hz, decimal times and far-away targets "
+               "target and step dyadic with few bits, |target| below 2^50 ticks; 10/100/44100 Hz, decimal times and targets 1e17 away "
                "are checked by the oracle only (range, grid, genuine crossing, exception class, termination)",
                "'genuine crossing' and 'on a sample position' are demanded where the property demands them: target on a sample "
                "position; for other targets only termination, range and the exception class are judged",
@@ -161,7 +161,7 @@ def find_ticks(c):
     if S_ < 2 * m:
         rounds = 0
     else:
-        rounds = max(T_, n * m - T_, 0) // S_ + 2
+        rounds = n * m // S_ + 2       # the cursors start inside the recording (0d5ac6f): independent of the target
     if rounds > MAX_ROUNDS:
         return None
     # every intermediate value is a multiple of 1/(rate*m) of magnitude below `big` ticks
@@ -787,6 +787,9 @@ def gen_recording(rnd, rates, nmax=None):
     return w, rate, style, n, enc_samples(gen_samples(rnd, w, n, style), w).hex()
 
 
+VERY_FAR = [1e17, -1e17, 1e9, -1e6]
+
+
 def gen_target(rnd, rate, n, step):
     """a target and its kind; `far` targets cost a bounded number of loop rounds (a multiple of the step away)"""
     k = rnd.random()
@@ -800,13 +803,12 @@ def gen_target(rnd, rate, n, step):
         return -rnd.choice([1, 2, 5, 64]) / rate if rnd.random() < 0.6 else -rnd.choice([0.5, 1.0, 3.25]), "neg"
     if k < 0.93:
         return (n + rnd.choice([1, 2, 3, 10, 50])) / rate if rnd.random() < 0.6 else n / rate + rnd.choice([0.5, 1.0, 2.75]), "beyond"
+    if rnd.random() < 0.35:
+        return rnd.choice(VERY_FAR + [1e6, -1e9, 2.0 ** 40, -2.0 ** 30]), "very-far"
     st = step if step is not None and step > 0 else 4 / rate
     rounds = rnd.choice([40, 300, 1000, 2500])
     far = rounds * st
     return (n / rate + far if rnd.random() < 0.6 else -far), "far"
-
-
-VERY_FAR = [1e17, -1e17, 1e9, -1e6]
 
 
 def gen_step(rnd, rate):
@@ -930,8 +932,8 @@ def gen(rnd, tier):
         yield {"op": "choose", "t": rnd.randint(0, 20), "a": o(), "b": o()}
     for _ in range(2200 * m):
         yield gen_find(rnd)
-    for t in VERY_FAR[: (4 if tier == "thorough" else 2)]:
-        # A16: expected not to return (each costs the full time limit)
+    for t in VERY_FAR:
+        # A16 (fixed, 0d5ac6f): must return or raise the documented error within the time limit
         c = gen_find(rnd)
         while Fraction(step_of(c)) * c["rate"] < 2:
             c = gen_find(rnd)
@@ -950,12 +952,15 @@ def gen(rnd, tier):
 def corpus():
     ramp = [5, 3, 2, 1, -1, -4, 2, 7, 7, 7, 7, 7, 7, -3, 4, 4, 4, 4, 4, 4]
     h = enc_samples(ramp, 1).hex()
-    # A6: a step that is not a whole number of samples puts the result off the sample grid (known finding C18-A6)
+    # A6 (fixed, 4789608): a step that is not a whole number of samples put the result off the sample grid
     yield {"op": "find", "w": 1, "rate": 8, "hex": h, "style": "corpus", "t": 0.0, "step": 2.5 / 8}
     yield {"op": "find", "w": 1, "rate": 8, "hex": h, "style": "corpus", "t": 1.125, "step": 2.25 / 8}
-    # A16: a target far outside the recording: the cursors walk from the target (known finding C18-A16)
+    # A16 (fixed, 0d5ac6f): a target far outside the recording: the cursors walked from the target and never arrived
     yield {"op": "find", "w": 1, "rate": 8, "hex": h, "style": "corpus", "t": 1e17, "step": 0.25}
+    yield {"op": "find", "w": 1, "rate": 8, "hex": h, "style": "corpus", "t": -1e17, "step": 0.25}
     yield {"op": "find", "w": 1, "rate": 8, "hex": h, "style": "corpus", "t": 1e6, "step": 0.25}
+    yield {"op": "find", "w": 2, "rate": 44100, "hex": enc_samples([round(1000 * math.sin(2 * math.pi * 200 * i / 44100)) + 3 for i in range(1500)], 2).hex(),
+           "style": "corpus", "t": 1000 / 44100, "step": None}
     # moderately far: terminates, compared with the model
     yield {"op": "find", "w": 1, "rate": 8, "hex": h, "style": "corpus", "t": 250.0, "step": 0.25}
     yield {"op": "find", "w": 1, "rate": 8, "hex": h, "style": "corpus", "t": -1.0, "step": 0.25}
